@@ -345,9 +345,59 @@ def construction_pass(ctx):
                 return
 
 
+def shadow_pass(ctx):
+    """a subclass declares a feature named like an inherited one (another type, another default), instances use it, then
+    the subclass feature is removed: the instances read and check the *inherited* feature — its default, its type"""
+    from pyecore import ecore as E
+    for k in range(16 if ctx.quick() else 200):
+        rng = common.sub_rng(ctx.seed, 'C12', 'shadow', k)
+        A = E.EClass('A')
+        ax = E.EAttribute('x', E.EInt, default_value=rng.choice([0, 4]))
+        A.eStructuralFeatures.append(ax)
+        Mid = E.EClass('Mid', superclass=(A,))
+        B = E.EClass('B', superclass=(Mid,) if k % 2 else (A,))
+        bx = E.EAttribute('x', E.EString, upper=-1 if k % 3 == 0 else 1)
+        B.eStructuralFeatures.append(bx)
+        touched, fresh = B(), B()
+        if bx.many:
+            touched.x.append('hello')
+        else:
+            touched.x = 'hello'
+        how = rng.choice(['remove', 'pop', 'clear'])
+        if how == 'remove':
+            B.eStructuralFeatures.remove(bx)
+        elif how == 'pop':
+            B.eStructuralFeatures.pop()
+        else:
+            B.eStructuralFeatures.clear()
+        ctx.evaluations += 1
+        ctx.nontriv(('shadow', k))
+        for who, o in (('an instance that used the removed feature', touched), ('an untouched instance', fresh), ('a new instance', B())):
+            problem = None
+            try:
+                got = o.x
+                if got != ax.default_value or isinstance(got, str):
+                    problem = f'reads {got!r}, the inherited feature\'s default is {ax.default_value!r}'
+                else:
+                    try:
+                        o.x = 'text'
+                        problem = 'accepts a str where the inherited feature is an EInt'
+                    except E.BadValueError:
+                        o.x = 7
+                        if o.x != 7:
+                            problem = 'does not keep an int written to the inherited feature'
+            except Exception as e:
+                problem = f'raised {type(e).__name__}: {e}'
+            if problem:
+                ctx.violate({'clause': 'shadow'}, f'a subclass feature x ({"many" if bx.many else "single"} EString) shadowing an inherited '
+                            f'EInt x was removed ({how}): {who} {problem}', {'shadow': k})
+                return
+
+
 def run(ctx):
     common.use_repo()
     construction_pass(ctx)
+    shadow_pass(ctx)
     n = 800 if ctx.quick() else 6000
     ned = 14 if ctx.quick() else 20
     ctx.rule = (f'{n} edit sequences (<= {ned}) over graphs of 2-4 dynamic classes: add/remove attribute or reference, add/remove '
